@@ -214,6 +214,8 @@ struct SessionState {
     deferred_read: DeferredRead,
     last_recorded_time: Option<tokio::time::Instant>,
     last_broadcast_type: Option<BroadcastConfirmMode>,
+    /// UNS bit and sequence number of the last response that reported a confirm-mandatory broadcast
+    broadcast_reported_by: Option<(bool, Sequence)>,
 }
 
 impl SessionState {
@@ -228,6 +230,7 @@ impl SessionState {
             deferred_read: DeferredRead::new(max_read_headers),
             last_recorded_time: None,
             last_broadcast_type: None,
+            broadcast_reported_by: None,
         }
     }
 
@@ -236,6 +239,26 @@ impl SessionState {
         self.last_valid_request = None;
         self.select = None;
         self.deferred_read.clear();
+        self.broadcast_reported_by = None;
+    }
+
+    /// a response carrying the broadcast indication is about to be transmitted
+    fn broadcast_reported(&mut self, control: ControlField) {
+        if let Some(BroadcastConfirmMode::Mandatory) = self.last_broadcast_type {
+            self.broadcast_reported_by = Some((control.uns, control.seq));
+        }
+    }
+
+    /// A CONFIRM was received: a pending confirm-mandatory broadcast indication is
+    /// cleared only if it confirms the response that reported the indication
+    fn broadcast_confirmed(&mut self, uns: bool, seq: Sequence) -> bool {
+        if self.broadcast_reported_by == Some((uns, seq)) {
+            self.broadcast_reported_by = None;
+            self.last_broadcast_type = None;
+            true
+        } else {
+            false
+        }
     }
 }
 
@@ -396,6 +419,7 @@ impl OutstationSession {
         database: &DatabaseHandle,
     ) -> Result<Response, LinkError> {
         response.header.iin |= self.get_response_iin(database);
+        self.state.broadcast_reported(response.header.control);
 
         self.repeat_unsolicited(io, writer, response).await?;
 
@@ -439,6 +463,7 @@ impl OutstationSession {
                 response.header.control.con = true;
             }
         }
+        self.state.broadcast_reported(response.header.control);
 
         self.repeat_solicited(io, respond_to, writer, response)
             .await?;
@@ -760,7 +785,7 @@ impl OutstationSession {
         match self.classify(info, request) {
             FragmentType::UnsolicitedConfirm(seq) => {
                 if seq == uns_ecsn {
-                    self.state.last_broadcast_type = None;
+                    self.state.broadcast_confirmed(true, seq);
                     self.info.unsolicited_confirmed(seq);
                     Ok(UnsolicitedWaitResult::Complete(
                         UnsolicitedResult::Confirmed,
@@ -773,10 +798,8 @@ impl OutstationSession {
                     Ok(UnsolicitedWaitResult::ReadNext)
                 }
             }
-            FragmentType::SolicitedConfirm(_) => {
-                if let Some(BroadcastConfirmMode::Mandatory) = self.state.last_broadcast_type {
-                    self.state.last_broadcast_type = None
-                } else {
+            FragmentType::SolicitedConfirm(seq) => {
+                if !self.state.broadcast_confirmed(false, seq) {
                     tracing::warn!("ignoring solicited confirm");
                 }
                 Ok(UnsolicitedWaitResult::ReadNext)
@@ -1943,6 +1966,7 @@ impl OutstationSession {
         request: Request<'_>,
     ) {
         self.state.last_broadcast_type = Some(mode);
+        self.state.broadcast_reported_by = None;
         let action = self
             .process_broadcast_get_action(frame_id, database, request)
             .await;
